@@ -15,6 +15,7 @@
 package internal
 
 import (
+	"errors"
 	"iter"
 	"maps"
 	"net/http"
@@ -53,12 +54,21 @@ func (r RawDeltaSeconds) Value() (dur time.Duration, valid bool) {
 		return
 	}
 	seconds, err := strconv.ParseInt(string(r), 10, 64)
-	if err != nil {
+	if err != nil && !errors.Is(err, strconv.ErrRange) {
 		return
+	}
+	// Values too large to represent (including those that overflow int64, for
+	// which ParseInt reports the maximum) saturate instead of wrapping around
+	// (RFC 9111 §1.2.2).
+	if seconds > maxDeltaSeconds {
+		return maxDuration, true
 	}
 
 	return time.Duration(seconds) * time.Second, true
 }
+
+// maxDeltaSeconds is the largest number of seconds a time.Duration can hold.
+const maxDeltaSeconds = int64(maxDuration / time.Second)
 
 // RawCSVSeq is a string that represents a sequence of comma-separated values.
 type RawCSVSeq string
